@@ -23,6 +23,9 @@ SKIP = frozenset({
     'sync_alerts', 'connected', 'last_used', 'class_name',
     # display-only values (wall-clock integers: only their zero-ness is observable, see ZERONESS)
     'last_event_mtime', 'when', 'description', '_status_tree',
+    # derived duration (now_monotonic - start_monotonic, both kept): ranking a duration among absolute times made
+    # the rank depend on the number of clock reads, i.e. on hidden state (found by the shuffled-order self-test)
+    'uptime',
     # network identity: constant per scenario
     'local_network', 'simple_address', 'remote_view', 'local_view', '_proxy', 'supvisors_id',
     # shared structures reached through another path
@@ -106,7 +109,11 @@ def canon_sup(c, s):
     if not s.alive:
         return ('dead', s.idx, s.incarnation > 0)
     ps = s.rpc_handler.proxy_server
-    procs = tuple((ns, int(p.state), p.backoff, bool(p.supvisors_config.program_config.disabled), p.extra_args)
+    # everything of the fake Supervisor process table that a later handshake snapshot copies into the state
+    procs = tuple((ns, int(p.state), p.backoff, bool(p.supvisors_config.program_config.disabled), p.extra_args,
+                   p.pid, p.spawnerr, p.laststart != 0, p.laststop != 0, p.exitstatus,
+                   c.walk(float(p.laststart_monotonic)), c.walk(float(p.laststop_monotonic)), p.obsolete,
+                   p.config.autorestart)
                   for ns, p in s.procs())
     return (s.idx, s.listener.counter, type(s.fsm.instance).__name__,
             c.walk(s.fsm.instance.lost_instances), len(s.fsm.instance.lost_processes),
